@@ -528,6 +528,19 @@ RefKids(t, arg, vr, i, got) ==
                \* the outcome is "error" either way
                <<FALSE, 0>>
 Ref == RefVal(P.root.t, P.root.arg, ver)
+\* the reference outcome of every run of the plan (versions follow the edits), printed once per program: the harness
+\* judges every recorded execution against it, whether or not a sampled behaviour reached that run
+RECURSIVE PlanRefs(_, _, _)
+PlanRefs(i, vr, acc) ==
+  IF i > Len(Plan) THEN acc
+  ELSE LET st == Plan[i] IN
+       IF st.k = "edit"
+       THEN PlanRefs(i + 1, [vr EXCEPT ![st.t] = IF @ = Len(Tasks[st.t].vers) THEN 1 ELSE @ + 1], acc)
+       ELSE LET r == RefVal(P.root.t, P.root.arg, vr) IN
+            PlanRefs(i + 1, vr, Append(acc, [res |-> IF st.mode # "real" THEN "none" ELSE IF r[1] THEN "ok" ELSE "err",
+                                             v |-> r[2]]))
+RefReport == (pc = 0 /\ mode = "idle" /\ outs = <<>>) =>
+               PrintT("REF " \o ToJson([pi |-> pi, refs |-> PlanRefs(1, [t \in TaskNames |-> 1], <<>>)]))
 \* C01/C02/C07: whatever the schedule and whatever is cached, a finished real run returns the
 \* reference value, and fails iff the reference evaluation fails
 Deterministic ==
